@@ -91,6 +91,12 @@ func (p *Program) lookupExternal(fn *ssa.Function, name string) externalFn {
 		return ext
 	}
 
+	if strings.HasPrefix(name, "unique.Make[") {
+		return uniqueMake
+	}
+	if strings.HasPrefix(name, "(unique.Handle[") && strings.HasSuffix(name, ".Value") {
+		return uniqueValue
+	}
 	if n := fn.Name(); strings.HasPrefix(n, "verif") {
 		if ext := intrinsics[n]; ext != nil {
 			return ext
